@@ -551,3 +551,170 @@ Definition C02_pin_zbdd_run_ops := ex_z4_ops.
 Definition C02_pin_zbdd_run_ite := ex_z4_ite.
 Definition C02_pin_zbdd_run_vars := ex_z4_vars.
 Definition C02_pin_zbdd_run_eval := ex_z4_eval.
+
+(** * Plain BDD kind, EDGE LEVEL (package C02s): what an operation does to the table
+
+    Proved in DD/ApplyBddEdge.v for the algorithms of DD/Apply.v.  The correspondence run
+    (ocaml/c02_main.ml) replays every operation of the implementation on the snapshot taken
+    BEFORE it, with the direct-mapped cache model, and requires: no old node changed, the new
+    nodes of the implementation = the new nodes of the model (up to the names of the new ids),
+    the same result edge.  [nreach s r id]: node [id] belongs to the diagram of [r];
+    [tight s s' r]: every node of [s'] is a node of [s] or belongs to the diagram of [r]. *)
+From OxiVerif Require Import DD.Cache DD.CacheProofs DD.ApplyBddEdge.
+
+(** the reachability relation is the one of C05 ([reachable] from a root list) *)
+Theorem C02_bdd_edge_nreach_reachable : forall s r id,
+  ApplyBddEdge.nreach s r id -> TableProofs.reachable s [r] (RN id).
+Proof. exact nreach_reachable. Qed.
+Print Assumptions C02_bdd_edge_nreach_reachable.
+
+(** NO hypothesis (any table, any cache, any operand order, any fuel): an operation only adds
+    nodes (old nodes, terminals, order, handles unchanged) and every added node belongs to the
+    diagram of the result: no garbage, no intermediate node the result does not use *)
+Theorem C02_bdd_edge_not_tight : forall C cget cadd fuel s (c : C) f s' c' r,
+  Apply.apply_not C cget cadd fuel s c f = Some (s', c', r) ->
+  BuildProofs.extends s s' /\ ApplyBddEdge.tight s s' r.
+Proof. exact apply_not_tight. Qed.
+Print Assumptions C02_bdd_edge_not_tight.
+
+Theorem C02_bdd_edge_bin_tight : forall gt C cget cadd op fuel s (c : C) f g s' c' r,
+  Apply.apply_bin gt C cget cadd fuel s c op f g = Some (s', c', r) ->
+  BuildProofs.extends s s' /\ ApplyBddEdge.tight s s' r.
+Proof. exact apply_bin_tight. Qed.
+Print Assumptions C02_bdd_edge_bin_tight.
+
+Theorem C02_bdd_edge_ite_tight : forall gt C cget cadd fuel s (c : C) f g h s' c' r,
+  Apply.apply_ite gt C cget cadd fuel s c f g h = Some (s', c', r) ->
+  BuildProofs.extends s s' /\ ApplyBddEdge.tight s s' r.
+Proof. exact apply_ite_tight. Qed.
+Print Assumptions C02_bdd_edge_ite_tight.
+
+Theorem C02_bdd_edge_var_tight : forall s v neg s' r, Apply.mk_var s v neg = Some (s', r) ->
+  BuildProofs.extends s s' /\
+  forall id nd, find_node s' id = Some nd -> find_node s id = Some nd \/ r = RN id.
+Proof. exact mk_var_tight. Qed.
+Print Assumptions C02_bdd_edge_var_tight.
+
+(** the result TABLE and EDGE do not depend on the cache implementation, its content or the
+    operand order (two arbitrary lossy caches with correct contents, two arbitrary orders) *)
+Theorem C02_bdd_edge_not_deterministic : forall C1 C2 cget1 cadd1 cget2 cadd2,
+  ApplyProofs.lossy cget1 cadd1 -> ApplyProofs.lossy cget2 cadd2 ->
+  forall fuel s (c1 : C1) (c2 : C2) f,
+  ApplyProofs.BddOK s -> ApplyProofs.CacheOK cget1 s c1 -> ApplyProofs.CacheOK cget2 s c2 ->
+  ref_ok s f -> ApplyProofs.FUEL s <= fuel ->
+  exists s' c1' c2' r,
+    Apply.apply_not C1 cget1 cadd1 fuel s c1 f = Some (s', c1', r) /\
+    Apply.apply_not C2 cget2 cadd2 fuel s c2 f = Some (s', c2', r).
+Proof. exact apply_not_deterministic. Qed.
+Print Assumptions C02_bdd_edge_not_deterministic.
+
+Theorem C02_bdd_edge_bin_deterministic : forall gt1 gt2 C1 C2 cget1 cadd1 cget2 cadd2,
+  ApplyProofs.lossy cget1 cadd1 -> ApplyProofs.lossy cget2 cadd2 ->
+  forall op fuel s (c1 : C1) (c2 : C2) f g,
+  ApplyProofs.BddOK s -> ApplyProofs.CacheOK cget1 s c1 -> ApplyProofs.CacheOK cget2 s c2 ->
+  ref_ok s f -> ref_ok s g -> ApplyProofs.FUEL s <= fuel ->
+  exists s' c1' c2' r,
+    Apply.apply_bin gt1 C1 cget1 cadd1 fuel s c1 op f g = Some (s', c1', r) /\
+    Apply.apply_bin gt2 C2 cget2 cadd2 fuel s c2 op f g = Some (s', c2', r).
+Proof. exact apply_bin_deterministic. Qed.
+Print Assumptions C02_bdd_edge_bin_deterministic.
+
+Theorem C02_bdd_edge_ite_deterministic : forall gt1 gt2 C1 C2 cget1 cadd1 cget2 cadd2,
+  ApplyProofs.lossy cget1 cadd1 -> ApplyProofs.lossy cget2 cadd2 ->
+  forall fuel s (c1 : C1) (c2 : C2) f g h,
+  ApplyProofs.BddOK s -> ApplyProofs.CacheOK cget1 s c1 -> ApplyProofs.CacheOK cget2 s c2 ->
+  ref_ok s f -> ref_ok s g -> ref_ok s h -> ApplyProofs.FUEL s <= fuel ->
+  exists s' c1' c2' r,
+    Apply.apply_ite gt1 C1 cget1 cadd1 fuel s c1 f g h = Some (s', c1', r) /\
+    Apply.apply_ite gt2 C2 cget2 cadd2 fuel s c2 f g h = Some (s', c2', r).
+Proof. exact apply_ite_deterministic. Qed.
+Print Assumptions C02_bdd_edge_ite_deterministic.
+
+(** if the result function already has an edge in the table: that very edge, table unchanged *)
+Theorem C02_bdd_edge_not_existing : forall C cget cadd, ApplyProofs.lossy cget cadd ->
+  forall fuel s (c : C) f phi r0,
+  ApplyProofs.BddOK s -> ApplyProofs.CacheOK cget s c -> ApplyProofs.Den s f phi ->
+  ApplyProofs.FUEL s <= fuel ->
+  ApplyProofs.Den s r0 (fun c0 => negb (phi c0)) ->
+  exists c', Apply.apply_not C cget cadd fuel s c f = Some (s, c', r0).
+Proof. exact apply_not_existing. Qed.
+Print Assumptions C02_bdd_edge_not_existing.
+
+Theorem C02_bdd_edge_bin_existing : forall gt C cget cadd, ApplyProofs.lossy cget cadd ->
+  forall op fuel s (c : C) f g phi psi r0,
+  ApplyProofs.BddOK s -> ApplyProofs.CacheOK cget s c -> ApplyProofs.Den s f phi -> ApplyProofs.Den s g psi ->
+  ApplyProofs.FUEL s <= fuel ->
+  ApplyProofs.Den s r0 (fun c0 => eval_bop op (phi c0) (psi c0)) ->
+  exists c', Apply.apply_bin gt C cget cadd fuel s c op f g = Some (s, c', r0).
+Proof. exact apply_bin_existing. Qed.
+Print Assumptions C02_bdd_edge_bin_existing.
+
+Theorem C02_bdd_edge_ite_existing : forall gt C cget cadd, ApplyProofs.lossy cget cadd ->
+  forall fuel s (c : C) f g h phi psi theta r0,
+  ApplyProofs.BddOK s -> ApplyProofs.CacheOK cget s c ->
+  ApplyProofs.Den s f phi -> ApplyProofs.Den s g psi -> ApplyProofs.Den s h theta ->
+  ApplyProofs.FUEL s <= fuel ->
+  ApplyProofs.Den s r0 (fun c0 => if phi c0 then psi c0 else theta c0) ->
+  exists c', Apply.apply_ite gt C cget cadd fuel s c f g h = Some (s, c', r0).
+Proof. exact apply_ite_existing. Qed.
+Print Assumptions C02_bdd_edge_ite_existing.
+
+(** the instance the driver runs (direct-mapped cache of DD/Cache.v, ANY hash function, bucket
+    count and entry capacity, initially empty; any operand order): defined, well-formed
+    extension, tight, pointwise correct, and the same table and edge as the cache-free run
+    under any other operand order *)
+Theorem C02_bdd_edge_not_dm : forall hash nb cap s f, ApplyProofs.BddOK s -> ref_ok s f ->
+  exists s' c' r,
+    Apply.apply_not dm_cache (dmr_get hash) (dmr_add hash) (ApplyProofs.FUEL s) s (dm_init nb cap) f = Some (s', c', r) /\
+    ApplyProofs.BddOK s' /\ BuildProofs.extends s s' /\ ApplyBddEdge.tight s s' r /\ ref_ok s' r /\
+    (forall c0, ApplyProofs.bchoice c0 -> exists x,
+        ApplyProofs.bvalue s f c0 x /\ ApplyProofs.bvalue s' r c0 (negb x)) /\
+    exists c2', Apply.apply_not unit nc_get nc_add (ApplyProofs.FUEL s) s tt f = Some (s', c2', r).
+Proof. exact apply_not_dm. Qed.
+Print Assumptions C02_bdd_edge_not_dm.
+
+Theorem C02_bdd_edge_bin_dm : forall hash gt gt2 nb cap op s f g,
+  ApplyProofs.BddOK s -> ref_ok s f -> ref_ok s g ->
+  exists s' c' r,
+    Apply.apply_bin gt dm_cache (dmr_get hash) (dmr_add hash) (ApplyProofs.FUEL s) s (dm_init nb cap) op f g
+      = Some (s', c', r) /\
+    ApplyProofs.BddOK s' /\ BuildProofs.extends s s' /\ ApplyBddEdge.tight s s' r /\ ref_ok s' r /\
+    (forall c0, ApplyProofs.bchoice c0 -> exists x y,
+        ApplyProofs.bvalue s f c0 x /\ ApplyProofs.bvalue s g c0 y /\
+        ApplyProofs.bvalue s' r c0 (eval_bop op x y)) /\
+    exists c2', Apply.apply_bin gt2 unit nc_get nc_add (ApplyProofs.FUEL s) s tt op f g = Some (s', c2', r).
+Proof. exact apply_bin_dm. Qed.
+Print Assumptions C02_bdd_edge_bin_dm.
+
+Theorem C02_bdd_edge_ite_dm : forall hash gt gt2 nb cap s f g h,
+  ApplyProofs.BddOK s -> ref_ok s f -> ref_ok s g -> ref_ok s h ->
+  exists s' c' r,
+    Apply.apply_ite gt dm_cache (dmr_get hash) (dmr_add hash) (ApplyProofs.FUEL s) s (dm_init nb cap) f g h
+      = Some (s', c', r) /\
+    ApplyProofs.BddOK s' /\ BuildProofs.extends s s' /\ ApplyBddEdge.tight s s' r /\ ref_ok s' r /\
+    (forall c0, ApplyProofs.bchoice c0 -> exists x y z,
+        ApplyProofs.bvalue s f c0 x /\ ApplyProofs.bvalue s g c0 y /\ ApplyProofs.bvalue s h c0 z /\
+        ApplyProofs.bvalue s' r c0 (if x then y else z)) /\
+    exists c2', Apply.apply_ite gt2 unit nc_get nc_add (ApplyProofs.FUEL s) s tt f g h = Some (s', c2', r).
+Proof. exact apply_ite_dm. Qed.
+Print Assumptions C02_bdd_edge_ite_dm.
+
+(** non-vacuity: on [ex_snap], (l0 <-> l1) and l1 creates exactly one node, the result (id 4);
+    l1 nand l1 = not l1 exists already: node 2 is returned and the table is unchanged *)
+Theorem C02_bdd_edge_example :
+  ApplyProofs.BddOK ex_snap /\
+  (match Apply.apply_bin edge_gt dm_cache (dmr_get edge_hash) (dmr_add edge_hash) (ApplyProofs.FUEL ex_snap) ex_snap
+           (dm_init 4 8) OAnd (RN 3) (RN 1) with
+   | Some (s', _, r) =>
+     r = RN 4 /\ find_node ex_snap 4 = None /\
+     find_node s' 4 = Some (mkNode 0 [Build.E (RN 1); Build.E (RT 0)] 0 0) /\
+     length (PositiveMap.elements (s_nodes s')) = 4
+   | None => False
+   end) /\
+  (match Apply.apply_bin edge_gt dm_cache (dmr_get edge_hash) (dmr_add edge_hash) (ApplyProofs.FUEL ex_snap) ex_snap
+           (dm_init 4 8) ONand (RN 1) (RN 1) with
+   | Some (s', _, r) => r = RN 2 /\ s' = ex_snap
+   | None => False
+   end).
+Proof. exact edge_example. Qed.
+Print Assumptions C02_bdd_edge_example.
